@@ -22,6 +22,7 @@ RULE = (
     "plants one inversion (first/middle/last row or chunk boundary) and expects a rejection. Non-trivial = >=2 "
     "inputs and a score value occurring in >=2 different inputs; distinct = (seed,index,rep)."
     " The score / priority column is the caller's choice (score, svm_score, q), half of the renamed inputs also carry an unrelated unsorted column called 'score'; merge_sort called with the column positionally or by keyword."
+    " Tie mode inthead: the first rows of an input are whole numbers; half of the text inputs write numbers the short way (%.17g)."
 )
 ASSUMPTIONS = ["inputs are written with pandas/pyarrow by the harness; values are compared after the same "
                "library's round trip (type inference of text is C13's business)"]
@@ -29,7 +30,7 @@ ASSUMPTIONS = ["inputs are written with pandas/pyarrow by the harness; values ar
 
 def gen_inputs(rng, ascending=False, kmax=8, nmax=200):
     k = int(rng.integers(1, kmax + 1))
-    tie = rng.choice(["none", "some", "heavy", "constant"], p=[.3, .3, .3, .1])
+    tie = rng.choice(["none", "some", "heavy", "constant", "inthead"], p=[.25, .25, .25, .1, .15])
     frames = []
     nid = 0
     for j in range(k):
@@ -40,11 +41,21 @@ def gen_inputs(rng, ascending=False, kmax=8, nmax=200):
             s = np.round(rng.normal(size=n), 1)
         elif tie == "heavy":
             s = rng.integers(0, 3, size=n).astype(float)
+        elif tie == "inthead":
+            # quarter-valued scores whose first rows (in file order) are whole numbers: written the short way (12
+            # instead of 12.0) the column looks integer-typed to a reader that only sees the head of the file
+            s = np.round(rng.normal(size=n) * 3, 2)
         else:
             s = np.zeros(n)
         s = np.sort(s)
         if not ascending:
             s = s[::-1]
+        if tie == "inthead":
+            h = int(min(n, rng.integers(1, 4)))
+            if ascending:
+                s[:h] = np.floor(s[0]) - np.arange(h, 0, -1)
+            else:
+                s[:h] = np.ceil(s[0]) + np.arange(h, 0, -1)
         df = pd.DataFrame({"id": np.arange(nid, nid + n), "score": s.copy(),
                            "txt": [f"r{j}_{i}" for i in range(n)], "val": rng.integers(-5, 5, size=n)})
         nid += n
@@ -54,6 +65,7 @@ def gen_inputs(rng, ascending=False, kmax=8, nmax=200):
 
 def write_inputs(frames, d, fmt, rng):
     paths = []
+    short_numbers = bool(rng.random() < 0.5)   # 12 instead of 12.0 in text files
     for j, df in enumerate(frames):
         if fmt == "parquet":
             p = Path(d) / f"in{j}.parquet"
@@ -64,7 +76,7 @@ def write_inputs(frames, d, fmt, rng):
                            row_group_size=int(rng.integers(1, len(df) + 2)))
         else:
             p = Path(d) / f"in{j}.csv"
-            df.to_csv(p, sep="\t", index=False)
+            df.to_csv(p, sep="\t", index=False, **({"float_format": "%.17g"} if short_numbers else {}))
         paths.append(p)
     return paths
 
@@ -257,6 +269,11 @@ def run_table_merger(case):
                     c = core.Call(go)
                     evals += 1
                     if not c.ok:
+                        if "Column types do not match" in str(c.info.get("msg", "")):
+                            # the merger compares the column types it infers from the heads of the text files and
+                            # refuses inputs that look differently typed (type inference of text is C13's business)
+                            res.count("refused_inferred_types_differ")
+                            continue
                         if "VF:chunk sizes" in str(c.exc):
                             res.violate("chunk_shape", api, msg=str(c.exc), **extra)
                         else:
